@@ -2,7 +2,8 @@
    The universal statement is REFUTED for the unchanged implementation; what is
    proved is the witness and the exactness of the instruments the check uses. *)
 From Coq Require Import NArith List Bool.
-From PV Require Import Spec.Cfg Model.Forest Proofs.ForestProofs.
+From PV Require Import Spec.Cfg Model.Forest Validators.ForestSound Validators.ForestComplete
+  Proofs.ForestProofs Proofs.ForestSoundProofs Proofs.ForestCompleteProofs.
 Import ListNotations.
 Local Open Scope N_scope.
 
@@ -62,6 +63,47 @@ Theorem C02_forest_enumeration_exact : forall (F : forest) (i : N),
 Proof. exact index_correct. Qed.
 Print Assumptions C02_forest_enumeration_exact.
 
+(* per forest: COMPLETENESS FROM LOCAL CHECKS.  forest_complete is a boolean check, run on every
+   acyclic forest the impl returns (with a chart certificate proposed by the harness: a wrong
+   chart makes it fail, never pass), under which EVERY derivation tree of the input -- root =
+   start symbol, productions applied in order, every leaf a token of the recogniser oracle,
+   consecutive leaves separated by layout only, first leaf right after the leading layout and
+   (consume_input) only layout after the last -- is, up to the spans recorded in interior
+   nodes, one of the trees the forest represents.  No enumeration, no bound on the number of
+   derivations.  On the witness forest above the check fails, as it must. *)
+Theorem C02_forest_complete :
+  forall g tokok sk C toks start pos0 in_len consume F,
+    (forall y s e, tokok y s e = true -> In (y, s, e) toks) ->
+    forest_complete g tokok sk C toks start pos0 in_len consume F = true ->
+    forall t,
+      wf_tree g t -> root_sym g t = Some (NT start) ->
+      chain_ok sk (leaves t) -> All (leaf_fine tokok) (leaves t) ->
+      match bounds (leaves t) with
+      | None => consume = true -> sk pos0 = in_len
+      | Some (fs, le) => fs = sk pos0 /\ le <= in_len /\ (consume = true -> sk le = in_len)
+      end ->
+      exists t', In t' (root_trees F) /\ shape t' = shape t.
+Proof. exact forest_complete_thm. Qed.
+Print Assumptions C02_forest_complete.
+
+(* the token list the extracted check uses covers the match matrix *)
+Theorem C02_matrix_tokens_cover :
+  forall rx y b l row,
+    nth_error rx y = Some row -> nth_error row b = Some l -> l <> 0 ->
+    In (N.of_nat y, N.of_nat b, N.of_nat b + l) (matrix_toks rx).
+Proof. exact matrix_toks_In. Qed.
+Print Assumptions C02_matrix_tokens_cover.
+
+(* the checker used to certify reference derivations accepts exactly the derivations: together
+   with C01_tree_valid (soundness) the completeness half *)
+Theorem C02_tsum_complete :
+  forall g tokok sk t,
+    wf_tree g t -> chain_ok sk (leaves t) -> All (leaf_fine tokok) (leaves t) ->
+    exists sm, tsum g tokok sk false t = Some sm /\ root_sym g t = Some (sm_sym sm) /\
+               sm_fl sm = bounds (leaves t).
+Proof. exact tsum_complete. Qed.
+Print Assumptions C02_tsum_complete.
+
 (* FULL STATEMENT NOT PROVED (and false as it stands): for every acyclic grammar and
    sentence w, every derivation tree of w is (up to node spans) in root_trees of the forest
    GLRParser.parse returns.  C02_partial (epsilon-free grammars) would need a model of the GLR
@@ -70,6 +112,28 @@ Print Assumptions C02_forest_enumeration_exact.
 Example C02_nonvacuous : length (root_trees F_w) = 4%nat /\ tree_ok g_w t_w = true.
 Proof. vm_compute. split; reflexivity. Qed.
 
+(* non-vacuity of C02_forest_complete: E -> E + E | n on "n+n+n" (two derivations), and the check
+   rejects the witness forest F_w of the refutation *)
+Definition gE2 : grammar := [mkProd 0 [NT 1]; mkProd 1 [NT 1; T 1; NT 1]; mkProd 1 [T 0]].
+Definition tokE2 (y s e : N) : bool :=
+  (e =? s + 1) && (((y =? 0) && ((s =? 0) || (s =? 2) || (s =? 4))) || ((y =? 1) && ((s =? 1) || (s =? 3)))).
+Definition toksE2 : list (N * N * N) := [(0, 0, 1); (1, 1, 2); (0, 2, 3); (1, 3, 4); (0, 4, 5)].
+Definition FE2 : forest :=
+  [ [ATerm 0 0 1]; [ANT 2 0 1 [0%nat]]; [ATerm 1 1 2]; [ATerm 0 2 3]; [ANT 2 2 3 [3%nat]];
+    [ATerm 1 3 4]; [ATerm 0 4 5]; [ANT 2 4 5 [6%nat]];
+    [ANT 1 0 3 [1; 2; 4]%nat]; [ANT 1 2 5 [4; 5; 7]%nat];
+    [ANT 1 0 5 [8; 5; 7]%nat; ANT 1 0 5 [1; 2; 9]%nat] ].
+Definition CE2 : list item :=
+  [ (T 0, Some (0, 1)); (T 1, Some (1, 2)); (T 0, Some (2, 3)); (T 1, Some (3, 4)); (T 0, Some (4, 5));
+    (NT 1, Some (0, 1)); (NT 1, Some (2, 3)); (NT 1, Some (4, 5));
+    (NT 1, Some (0, 3)); (NT 1, Some (2, 5)); (NT 1, Some (0, 5));
+    (NT 0, Some (0, 1)); (NT 0, Some (2, 3)); (NT 0, Some (4, 5));
+    (NT 0, Some (0, 3)); (NT 0, Some (2, 5)); (NT 0, Some (0, 5)) ].
+Example C02_complete_nonvacuous :
+  forest_ok gE2 tokE2 (fun p => p) false 1 0 5 true FE2 = true /\
+  forest_complete gE2 tokE2 (fun p => p) CE2 toksE2 1 0 5 true FE2 = true /\
+  length (root_trees FE2) = 2%nat.
+Proof. vm_compute. repeat split; reflexivity. Qed.
 (* ---- the GLR driver model (Model/GLR.v) ---------------------------------------------------------
    The completeness statement is FALSE of the faithful model of GLRParser.parse: with the
    implementation's own LALR table for  S: A A A | EMPTY; A: S 'b' | EMPTY;  on "b" the model
